@@ -1,4 +1,5 @@
 import Gnmi.Model.ClientRun
+import Gnmi.Model.ClientResub
 import Driver.Codec
 import Driver.GF
 import Driver.Poll
@@ -111,6 +112,31 @@ def render (sc : Scenario) (o : Outcome) : Option (String × String × String) :
       some ("tr=" ++ renderTrace sc o, "sub=" ++ sub ++ " close=" ++ cl, "ok")
   | _, _ => none
 
+/-- `rc new pxr <k> [<where>]`: a Poll in flight on the transport of Subscribe #1 across a second Subscribe and
+Close (go/vcorr/rc_pxr.go).  Model = the LTS of `Model/ClientResub.lean` (repository variant) under the
+harness's schedule `ClientResub.pxrSchedule` (a run of the LTS: `C18Resub.pxrFinal_reach`); the observation is
+the verdict (`ok` iff all calls returned and at most one update entered the handler after Close returned;
+for `after` — Subscribe #2 AFTER Close, outside the property's hypothesis — more than one reads `reopened`)
+and the two counts. -/
+def pxr (k w : String) : St × String × String :=
+  let wh : Option Gnmi.ClientResub.Where :=
+    if w == "mid" then some .mid else if w == "before" then some .before
+    else if w == "none" then some .none else if w == "after" then some .after else none
+  match (if k.length > 1 && k.startsWith "0" then none else k.toNat?), wh with
+  | some n, some wh =>
+      if 1 ≤ n ∧ n ≤ 40 then
+        match Gnmi.ClientResub.pxrObs false n wh with
+        | some (returned, a, tot) =>
+            let verdict :=
+              if !returned then "deadline" else if a ≤ 1 then "ok"
+              else if wh == .after then "reopened" else "afterclose"
+            let mon := if verdict == "reopened" then "ok" else verdict
+            let o := "pxr=" ++ verdict ++ " after=" ++ toString a ++ " total=" ++ toString tot
+            ({ ret := "-", mon := mon }, o, o)
+        | none => ({}, "bad-scenario", "bad-scenario")
+      else ({}, "bad-scenario", "bad-scenario")
+  | _, _ => ({}, "bad-scenario", "bad-scenario")
+
 /-- returns new state, model observation, spec observation -/
 def step (s : St) (args : List String) : St × String × String :=
   match args with
@@ -121,11 +147,8 @@ def step (s : St) (args : List String) : St × String × String :=
       match Driver.Poll.run mode first polls inj with
       | some (t, r) => ({ ret := r, mon := "ok" }, t, t)
       | none => ({}, "bad-scenario", "bad-scenario")
-  | ["new", "pxr", k] =>
-      -- a Poll in flight across a second Subscribe, then Close: judged by the Go-side monitor only (rc_pxr.go)
-      match k.toNat? with
-      | some n => if 1 ≤ n ∧ n ≤ 40 then ({ ret := "-", mon := "ok" }, "pxr=ok", "pxr=ok") else ({}, "bad-scenario", "bad-scenario")
-      | none => ({}, "bad-scenario", "bad-scenario")
+  | ["new", "pxr", k] => pxr k "mid"
+  | ["new", "pxr", k, w] => pxr k w
   | ["new", "gf", outs, sched] =>
       -- `client.NewImpl` = getFirst over several client types (Model/ClientFirst.lean, Driver/GF.lean)
       match Driver.GF.run outs sched with
